@@ -13,7 +13,7 @@ from mc.checks import stream_corpus as SC
 from mc.checks import codec_matrix as CM
 from mc.core import bfs as BFS
 from mc.core.bfs import ANY
-from mc.core.runner import guarded, Result, pyasn1_site, exc_text
+from mc.core.runner import guarded, InternalError, Result, pyasn1_site, exc_text
 from mc.env import streams as ST
 from mc.model import x690 as M
 from mc.model import forms as F
@@ -334,8 +334,46 @@ def one_input(name, T, data, tier, R, idx, tmpdir, old):
                                         '%s(buf=%s): %s' % (ref[0], ref[1], summarize(ref[2])), 'codec.streaming', feats, idx)
                         else:
                             R.features['a.kind:' + kind] += 1
+            if small and '/' in name and name.split('/')[-1] not in ('trunc', 'damaged'):
+                offset_variant(name, T, data, spec, R, idx, tmpdir, old)
             if idx % 37 == 0:
                 R.sample({'part': 'a', 'name': name, 'octets': len(data)})
+
+
+HEADER = b'HDR\x00\x01\x02\x03\x04\x05'
+
+
+def offset_variant(name, T, data, spec, R, idx, tmpdir, old):
+    """the stream is handed to the decoder positioned after a 9-octet application header"""
+    whole = HEADER + data
+    ref = None
+    for kind, factory in substrates(whole, tmpdir):
+        if kind in ('bytes', 'OctetString', 'Any'):
+            continue           # no notion of a current position
+        for streaming_mode in (False, True):
+            R.evaluations += 1
+            R.nontrivial((data[:64], kind, 'offset', streaming_mode))
+            sub, closer = factory()
+            try:
+                got = sub.read(len(HEADER))
+                if got != HEADER:
+                    raise InternalError('substrate kind %s did not deliver the header' % kind)
+                obs = observe(sub, spec, streaming_mode)
+            finally:
+                if closer:
+                    try:
+                        closer()
+                    except Exception:
+                        pass
+            want = observe(data, spec, streaming_mode)
+            if obs != want:
+                R.violation('kinds.differ_at_offset', {'name': name, 'T': T, 'data': data, 'kind': kind, 'streaming': streaming_mode},
+                            '%s positioned after a %d-octet header: %s' % (kind, len(HEADER), summarize(obs)),
+                            'as from bytes: %s' % summarize(want), 'codec.streaming',
+                            {'a', 'offset', 'kind:' + kind, 'streaming' if streaming_mode else 'oneshot',
+                             'wrapped_kind' if kind in ('BufferedReader', 'nonseekable') else 'seekable_kind'}, idx)
+            else:
+                R.features['a.offset:' + kind] += 1
 
 
 def renumbering_inside_definite(data, buf, choice_reentry=False):
